@@ -225,7 +225,13 @@ pub fn run(o: &Opts) -> i32 {
         {
             let mut r = qs.read().await.expect("read");
             for i in 0..pols.len() {
-                entries.push(r.internal_search_uuid(uuid_e(5000 + i as u64)).expect("group entry"));
+                let e = r.internal_search_uuid(uuid_e(5000 + i as u64)).expect("group entry");
+                // the logged input is the policy AS STORED: an empty CA list has no values and is therefore
+                // not stored at all (the attribute is absent on the entry)
+                if pols[i]["ca"]["has"] == 1 && e.get_ava_set(Attribute::WebauthnAttestationCaList).is_none() {
+                    pols[i]["ca"] = json!({"has": 0, "l": {}});
+                }
+                entries.push(e);
             }
         }
         for ms in &work {
